@@ -47,6 +47,10 @@ def hintB : Bool := tab.all fun r =>
   r.2.2.1 == wBHint
 theorem C01_hint : hintB = true := by decide +kernel
 
+/-- `rlbox::memcmp` compares bytes that reside in sandbox memory: its result is only ever an int hint -/
+def memcmpHintB : Bool := tab.all fun r => !(ruleName r.1 == "memcmp_hint") || r.2.2.1 == wIHint
+theorem C01_memcmp_hint : memcmpHintB = true ∧ (tab.any fun r => ruleName r.1 == "memcmp_hint") = true := by decide +kernel
+
 /-- hints cannot be passed to a verifier: no `copy_and_verify*` row with a hint operand compiles -/
 def hintNotVerifiableB : Bool := tab.all fun r =>
   !(["m_cav", "m_cav_addr", "m_cav_range", "m_cav_string", "m_cav_buf"].contains (ruleName r.1) &&
